@@ -26,6 +26,7 @@ import (
 	"google.golang.org/protobuf/encoding/protojson"
 	"google.golang.org/protobuf/encoding/protowire"
 	"google.golang.org/protobuf/proto"
+	"google.golang.org/protobuf/reflect/protoreflect"
 )
 
 // StreamDecoder is used to decode messages from a stream. This is used
@@ -247,8 +248,9 @@ func (s StrictProtoCodec) Unmarshal(data []byte, msg any) error {
 	if err := proto.Unmarshal(data, protoMsg); err != nil {
 		return err
 	}
-	// We are being strict and thus disallow any unrecognized fields.
-	unrecognized := protoMsg.ProtoReflect().GetUnknown()
+	// We are being strict and thus disallow any unrecognized fields,
+	// in the message itself and in the messages nested inside it.
+	unrecognized := findUnrecognized(protoMsg.ProtoReflect())
 	if len(unrecognized) == 0 {
 		return nil
 	}
@@ -283,6 +285,38 @@ func (s StrictProtoCodec) Unmarshal(data []byte, msg any) error {
 		return fmt.Errorf("message data included field %d that uses unknown wire type %d", num, typ)
 	}
 	return fmt.Errorf("message data includes unrecognized field %d with %s wire type", num, wireType)
+}
+
+// findUnrecognized returns the unrecognized fields of msg or, if it has none,
+// those of the first nested message (field, list element or map value) that
+// has some. It returns nil if there are no unrecognized fields at any depth.
+func findUnrecognized(msg protoreflect.Message) protoreflect.RawFields {
+	if unrecognized := msg.GetUnknown(); len(unrecognized) > 0 {
+		return unrecognized
+	}
+	var found protoreflect.RawFields
+	msg.Range(func(field protoreflect.FieldDescriptor, val protoreflect.Value) bool {
+		switch {
+		case field.IsMap():
+			if field.MapValue().Message() != nil {
+				val.Map().Range(func(_ protoreflect.MapKey, elem protoreflect.Value) bool {
+					found = findUnrecognized(elem.Message())
+					return len(found) == 0
+				})
+			}
+		case field.IsList():
+			if field.Message() != nil {
+				list := val.List()
+				for i := 0; i < list.Len() && len(found) == 0; i++ {
+					found = findUnrecognized(list.Get(i).Message())
+				}
+			}
+		case field.Message() != nil:
+			found = findUnrecognized(val.Message())
+		}
+		return len(found) == 0
+	})
+	return found
 }
 
 func (s StrictProtoCodec) MarshalAppend(b []byte, msg any) ([]byte, error) {
